@@ -24,6 +24,9 @@ PRUNINGS = [
     {"min_occurrences": 2},
     {"excluded_tokens": ["b"]},
     {"excluded_token_regex": "[bc]"},
+    # a supplied vocabulary that leaves tokens of the corpus out; the same dictionary OBJECT is used for an earlier fit
+    # with another mask string first (case["prior"]): every fit must see the vocabulary as supplied
+    {"token_dictionary": ["a", "c"]},
 ]
 MASKS = [(None, False), ("M", False), ("M", True)]
 CFGS = [
@@ -54,6 +57,8 @@ def kept_set(tokens, pruning):
         toks -= set(pruning["excluded_tokens"])
     if "excluded_token_regex" in pruning:
         toks = {t for t in toks if not re.fullmatch(pruning["excluded_token_regex"], t)}
+    if "token_dictionary" in pruning:
+        toks = set(pruning["token_dictionary"])     # the vocabulary is the supplied one, whether or not a token occurs
     return toks
 
 
@@ -66,6 +71,15 @@ def run_case(case):
     removed = len([t for t in toks if t not in kept])
     c2 = dict(cfg)
     c2.update({k: (set(v) if k == "excluded_tokens" else v) for k, v in pruning.items()})
+    shared = None
+    if "token_dictionary" in pruning:
+        shared = {t: i for i, t in enumerate(pruning["token_dictionary"])}
+        c2["token_dictionary"] = shared
+        if case.get("prior") and toks:
+            try:
+                build_estimator(kind, dict(c2, mask_string="Q", nullify_mask=False)).fit(corpus)
+            except Exception:
+                pass
     if mask is not None:
         c2["mask_string"] = mask
         c2["nullify_mask"] = nullify
@@ -117,6 +131,8 @@ def run_case(case):
     if dict(tl) != want:
         v.append(viol("vocabulary:%s" % ("mask" if mask else "nomask"), "token_label_dictionary_ %r, expected %r" % (dict(tl), want)))
         return res(v, out="vocab")
+    if shared is not None and shared != {t: i for i, t in enumerate(pruning["token_dictionary"])}:
+        v.append(viol("supplied-dictionary-modified:%s" % kind, "the caller's token_dictionary is now %r" % (shared,)))
     got = est_cells(est, mat, kind)
     normalised = cfg["normwin"] or (cfg.get("kargs") or {}).get("normalize", False)
     if mat.shape != (len(rows), len(labels) * len(wins)):
@@ -170,11 +186,16 @@ def _cases(tier, kind):
             for mask, nullify in MASKS:
                 if kind == "ngram" and nullify:
                     continue
-                for p in pairs:
-                    c = {"kind": kind, "cfg": cfg, "docs": list(p), "pruning": pr, "mask": mask, "nullify": nullify}
-                    if kind == "timed":
-                        c["times"] = [[float(i * (1 + (i % 2))) for i in range(len(d))] for d in p]
-                    yield c
+                if "token_dictionary" in pr and (kind == "ngram" or cfg.get("wfun")):
+                    continue
+                for prior in ((False, True) if "token_dictionary" in pr else (False,)):
+                    for p in pairs:
+                        c = {"kind": kind, "cfg": cfg, "docs": list(p), "pruning": pr, "mask": mask, "nullify": nullify}
+                        if prior:
+                            c["prior"] = True
+                        if kind == "timed":
+                            c["times"] = [[float(i * (1 + (i % 2))) for i in range(len(d))] for d in p]
+                        yield c
 
 
 def _tree_cases(tier):
@@ -196,7 +217,7 @@ def subchecks(tier, seed):
     for kind in ("token", "timed", "multiset", "ngram"):
         gen = (lambda k: (lambda: _cases(tier, k)))(kind)
         subs.append(Sub("mask_" + kind, "I", gen, run_case, total=sum(1 for _ in gen()),
-                        describe="corpora x prunings {min_occurrences 2, excluded b, regex [bc]} x mask {None, M, M+nullify} x 6 window settings",
+                        describe="corpora x prunings {min_occurrences 2, excluded b, regex [bc], supplied dictionary {a,c} (also after an earlier fit with another mask on the same dictionary object)} x mask {None, M, M+nullify} x 8 window settings",
                         nontrivial_rule="pruning removed at least one token occurrence"))
 
     def comp():
